@@ -15,7 +15,7 @@ KINDS = (1, 0, 5, 30000, 20000, 10000)
 
 @obligation(funcs=["storage.db.DBStorage.add_event", "storage.db.DBStorage.pre_save", "storage.db.DBStorage.post_save",
                    "storage.db.DBStorage.process_tags"],
-            timeout=(280, 1200), params=range(3),
+            timeout=(450, 1500), params=range(3),
             bounds="PARAM 0: duplicate, 1: fresh event with permission, 2: without permission.  store {e0}; submission of e1 (fresh id or e0's id again = duplicate) with kind by selector from {1,0,5,30000,"
                    "20000,10000}, author/created_at symbolic, <=1 tag from the 10 general shapes + d/e references; save permission "
                    "symbolic")
@@ -78,7 +78,7 @@ def ob_sql_ack(p0: bool, t0: int, k0: int, p1: bool, t1: int, k1: int, g: List[i
 
 
 @obligation(funcs=["storage.db.DBStorage.add_event", "storage.db.DBStorage.post_save", "storage.db.DBStorage.process_tags"],
-            timeout=(200, 900),
+            timeout=(350, 1200),
             bounds="SQL: sequences of <=4 submissions by symbolic selector from {E, D (kind 5 by the same author referencing E), E2 "
                    "(another regular event)}: a submission answered as a duplicate changes nothing; an event answered OK true is "
                    "retrievable until a later ACCEPTED deletion removes it")
